@@ -40,14 +40,14 @@ macro "admission_late_case" : tactic => `(tactic| (
     grind)))
 
 section
-variable {s s' : Shared} {rest stack' : List Frame} {id : Nat} {late bf : Bool} {ops : List Op}
+variable {s s' : Shared} {rest stack' : List Frame} {id : Nat} {late bf : Bool} {ops : List Op} {sk : List Nat}
   {A B A' B' : Nat} {seen : Word} {r : Res} {ret : Option Res}
 
 set_option hygiene false in
 macro "late_lemma " n:ident pc:term : command => `(
-  theorem $n (hs : stepThread s (⟨$pc, id, late, ops, bf⟩ :: rest) = some (s', stack'))
-    (d1 : Delta Frame.isLate (⟨$pc, id, late, ops, bf⟩ :: rest) stack' A A')
-    (d2 : Delta Frame.lateBad (⟨$pc, id, late, ops, bf⟩ :: rest) stack' B B')
+  theorem $n (hs : stepThread s (⟨$pc, id, late, ops, bf, sk⟩ :: rest) = some (s', stack'))
+    (d1 : Delta Frame.isLate (⟨$pc, id, late, ops, bf, sk⟩ :: rest) stack' A A')
+    (d2 : Delta Frame.lateBad (⟨$pc, id, late, ops, bf, sk⟩ :: rest) stack' B B')
     (h : LateN s A B) : LateN s' A' B' := by
   admission_late_case)
 
@@ -74,7 +74,7 @@ theorem lateN_stepThread {s s' : Shared} {stack stack' : List Frame}
   cases stack with
   | nil => simp [stepThread] at hs
   | cons f rest =>
-    obtain ⟨pc, id, late, ops, bf⟩ := f
+    obtain ⟨pc, id, late, ops, bf, sk⟩ := f
     cases pc
     · exact late_run hs d1 d2 h
     · exact late_sStatus hs d1 d2 h
